@@ -50,3 +50,22 @@ for r in res:
 json.dump([prev[k] for k in sorted(prev)], open(V + "/seeded/MATRIX.json", "w"), indent=1)
 for r in res:
     print(r["seed"], "applies" if r.get("applies") else "STALE", r.get("caught"))
+
+# record in each meta.json which checks report the seed (the thorough-tier self test reads `caught_by`)
+for r in json.load(open(V + "/seeded/MATRIX.json")):
+    mp = os.path.join(V, "seeded", r["seed"], "meta.json")
+    m = json.load(open(mp))
+    st = m.get("status") or {}
+    if isinstance(st, str):
+        st = {"state": st}
+    if (st.get("state") or "").split(":")[0] in ("neutralised", "obsolete"):
+        continue
+    if not r.get("applies", True):
+        st = dict(st, state="obsolete: no longer applies to the current tree")
+    elif r.get("caught"):
+        st = {"caught_by": sorted(r["caught"]), "keys": r["caught"], "expect": "violation", "state": "caught"}
+    else:
+        st = {"caught_by": [m["property"]], "expect": "violation", "state": "missed"}
+    if m.get("status") != st:
+        m["status"] = st
+        json.dump(m, open(mp, "w"), indent=1)
